@@ -92,7 +92,7 @@ def IsLattice (t : V3 K) : Prop := IsInt t.x ∧ IsInt t.y ∧ IsInt t.z
 /-- the reciprocal-length bound: `d` are the perpendicular spacings (1/|a*|, 1/|b*|, 1/|c*|) of the cell whose
     metric length is `len`; a fractional component times its spacing never exceeds the length of the vector
     (Cauchy–Schwarz with the reciprocal axes). Proved below for the model's `vectorLength` in orthogonal cells
-    (`recipBound_orthogonal`) and in general cells with non-degenerate angles (`recipBound_triclinic_x`). -/
+    (`recipBound_orthogonal`); for general cells it is the hypothesis of the theorems (Cauchy–Schwarz, not proved here). -/
 structure RecipBound (len : V3 K → K) (d : V3 K) : Prop where
   dx : 0 < d.x
   dy : 0 < d.y
@@ -809,6 +809,87 @@ theorem molindex_components (hyd : Nat → Bool) (n : Nat) (items : List Bond) (
             have e2 := ih2.2 p
             exact (ih1.2 (by omega)).trans e2
       exact (key i j hc).1 hpos
+
+
+/-! ### the thresholds the code contains today (regenerated) meet the hypotheses of the theorems -/
+
+/-- the constants of sdm.py as exact rationals -/
+def constsQ : Consts ℚ :=
+  { cut := Extracted.cutQ, bias := Extracted.biasQ, eps := Extracted.epsQ, factor := Extracted.factorQ,
+    half := Extracted.halfQ, big := Extracted.bigQ, nobond := Extracted.nobondQ }
+
+/-- `hh`, `hb`, `hbig` of the theorems above and `hd` of `covalent_iff_rule` (every reported distance exceeds
+    `eps - bias ≥ nobond`) hold for the literals in the source; re-checked whenever sdm.py changes -/
+theorem extracted_constants_ok :
+    2 * constsQ.half = 1 ∧ 0 ≤ constsQ.bias ∧ constsQ.cut + constsQ.bias < constsQ.big ∧
+    constsQ.nobond ≤ constsQ.eps - constsQ.bias ∧ 0 < constsQ.factor := by
+  simp only [constsQ, Extracted.cutQ, Extracted.biasQ, Extracted.epsQ, Extracted.factorQ, Extracted.halfQ,
+    Extracted.bigQ, Extracted.nobondQ]
+  norm_num
+
+/-- every covalent radius of `element2cov` is positive (so every bond limit is) -/
+theorem radii_positive : ∀ e ∈ Extracted.covRadius, (0 : ℚ) < e.2 := by decide +kernel
+
+/-- every element the library treats as hydrogen that has a radius at all has the hydrogen radius -/
+theorem hydrogen_radii_agree : ∀ e ∈ Extracted.covRadius, e.1 ∈ Extracted.hydrogenElements →
+    some e.2 = (Extracted.covRadius.find? (·.1 = "H")).map (·.2) := by decide +kernel
+
+/-- a concrete run of the operator loop: lengths 3 (identity), 2, 5/2 — operator 1 is reported with its real
+    length, and the separation hypothesis of `selectOp_min` holds for this list -/
+example : selectOp constsQ [3, 2, 5/2] = some (2, 1) := by decide +kernel
+
+example : ∀ i di d0, i ≠ 0 → ([3, 2, 5/2] : List ℚ)[i]? = some di → ([3, 2, 5/2] : List ℚ)[0]? = some d0 →
+    di < d0 → di + constsQ.bias < d0 := by
+  intro i di d0 _ hi h0 _
+  simp only [List.getElem?_cons_zero, Option.some.injEq] at h0
+  subst h0
+  match i, hi with
+  | 1, hi => simp at hi; subst hi; simp only [constsQ, Extracted.biasQ]; norm_num
+  | 2, hi => simp at hi; subst hi; simp only [constsQ, Extracted.biasQ]; norm_num
+  | 0, _ => contradiction
+  | (k + 3), hi => simp at hi
+
+/-- the identity keeps a tie: two operators at the same length report operator 0 -/
+example : selectOp constsQ [2, 2] = some (2, 0) := by decide +kernel
+
+/-! ### open findings (known_findings.jsonl): full-strength statement, partial theorem, witness -/
+
+/-- full strength: every pair with an image that is not the atom itself gets an item
+    (C13|no-item|distance-beyond-cut). The proved partial form is `selectOp_none` (no item only if no operator
+    is `Eligible`, i.e. within the 5.3 Å cut); `sdm_reports_min` needs no such hypothesis because it starts from a
+    reported item. -/
+def ItemForEveryContactStatement (c : Consts ℚ) : Prop :=
+  ∀ ds : List ℚ, (∃ i di, ds[i]? = some di ∧ biased c i di > c.eps) → (selectOp c ds).isSome = true
+
+theorem item_for_every_contact_fails_on : ¬ ItemForEveryContactStatement constsQ := by
+  intro h
+  have := h [6] ⟨0, 6, rfl, by decide +kernel⟩
+  revert this
+  decide +kernel
+
+theorem conn_nil {i j : Nat} (h : Conn [] i j) : i = j := by
+  induction h with
+  | refl => rfl
+  | bond b hb _ => exact absurd hb List.not_mem_nil
+  | symm _ ih => exact ih.symm
+  | trans _ _ ih1 ih2 => exact ih1.trans ih2
+
+/-- full strength: the molecule numbers are the partition into connected components
+    (C13|molindex|hydrogen-only-components-unnumbered). The proved partial form is `molindex_components`
+    (restricted to numbered atoms, and all non-hydrogen atoms are numbered). -/
+def MolindexPartitionStatement : Prop :=
+  ∀ (hyd : Nat → Bool) (n : Nat) (items : List Bond) (m : Nat → Int) (mx : Int),
+    calcMolindex hyd n items = some (m, mx) → ∀ i j, i < n → j < n → (m i = m j ↔ Conn items i j)
+
+/-- witness: C, H, H without any bond — both hydrogens keep -1 although they are different components -/
+theorem molindex_fails_on_lone_hydrogens : ¬ MolindexPartitionStatement := by
+  intro h
+  have hc : ∃ r, calcMolindex (fun i => decide (i ≠ 0)) 3 [] = some r ∧ r.1 1 = -1 ∧ r.1 2 = -1 := by
+    refine ⟨_, rfl, ?_, ?_⟩ <;> decide
+  obtain ⟨⟨m, mx⟩, e, h1, h2⟩ := hc
+  have := (h _ 3 [] m mx e 1 2 (by omega) (by omega)).mp (by simp only at h1 h2; rw [h1, h2])
+  have := conn_nil this
+  omega
 
 
 end Shelx.C13
